@@ -455,23 +455,22 @@ Section SeqProofs.
     - unfold good at 1. destruct (excl e); cbn [negb]; [exact IH|now intros [= <-]].
   Qed.
 
-  (* ---- get_stop_point: correct as long as the last two points are not both excluded ---- *)
-  Definition stop_domain : bool :=
-    match rev enum with
-    | [] => false
-    | c :: rest => negb (excl c) || match rest with pv :: _ => negb (excl pv) | [] => false end
-    end.
-
-  Lemma get_stop_spec a :
-    stop_domain = true -> get_stop enum complete bounded excl = Ok a -> a = APt spec_stop.
+  (* ---- get_stop_point: the last non-excluded point ---- *)
+  Lemma fold_last_good l acc :
+    fold_left (fun acc e => if excl e then acc else Some e) l acc =
+    match find good (rev l) with Some x => Some x | None => acc end.
   Proof.
-    clear. unfold stop_domain, get_stop, spec_stop. destruct bounded; [|now intros _ [= <-]].
+    revert acc; induction l as [|e l IH]; intros acc; cbn [fold_left rev]; [reflexivity|].
+    rewrite IH, find_app. destruct (find good (rev l)); [reflexivity|].
+    cbn [find]. unfold good. now destruct (excl e).
+  Qed.
+
+  Lemma get_stop_spec o :
+    get_stop enum complete bounded excl = Ok o -> o = spec_stop.
+  Proof.
+    clear. unfold get_stop, spec_stop. destruct bounded; [|now intros [= <-]].
     unfold at_end. destruct complete; cbn [bind]; [|discriminate].
-    destruct (rev enum) as [|c rest]; [discriminate|]. cbn [find]. unfold good at 1.
-    destruct (excl c); cbn [negb orb].
-    - destruct rest as [|pv rest]; [discriminate|]. cbn [find]. unfold good at 1.
-      intros ->. cbn [negb]. now intros [= <-].
-    - now intros _ [= <-].
+    intros [= <-]. rewrite fold_last_good. now destruct (find good (rev enum)).
   Qed.
 
   (* ---- get_nearest_prev_point, off-sequence branch (no use of get_prev) ---- *)
@@ -601,7 +600,6 @@ Section SeqProofs.
     match q with
     | QPrev _ | QNPrev _ => False
     | QNextOn p => In p enum          (* "assuming that point is on-sequence" *)
-    | QStop => stop_domain = true     (* see get_stop_spec *)
     | _ => True
     end.
   Definition prev_domain (q : query) : Prop :=
@@ -662,7 +660,7 @@ Section SeqProofs.
     - destruct (scan_start complete excl enum) as [o|e] eqn:E; cbn [bind]; [|discriminate].
       intros [= <- <-]. f_equal. now apply scan_start_spec.
     - destruct (get_stop enum complete bounded excl) as [o|e] eqn:E; cbn [bind]; [|discriminate].
-      intros [= <- <-]. now apply get_stop_spec.
+      intros [= <- <-]. f_equal. now apply get_stop_spec.
   Qed.
 
   Lemma run_query_prev s q a s' :
